@@ -12,18 +12,22 @@ def outO : Option (List Nat) → String
   | none => "none"
 def sOpt (ok : Bool) (v : Nat) : String := if ok then "some " ++ toHex v else "none"
 
-/-- is `r` the inverse of `x` modulo `2^bits`? (independent of how it was found) -/
-def invSpec (bits x : Nat) (impl : String) : String :=
+/-- the inverse of odd `x` modulo `2^bits`, found bit by bit (independent of Newton/Hensel):
+    invariant `rem = (1 - x*inv) mod 2^bits` with its low `i` bits clear. -/
+def invBits (bits x : Nat) : Nat := Id.run do
   let m := 2 ^ bits
-  if bits = 0 ∨ x % 2 = 0 then "none"
-  else
-    match impl.splitOn " " with
-    | ["some", rs] =>
-      let r := parseHex rs
-      if r < m ∧ (x * r) % m = 1 % m then impl else "some <inverse of " ++ toHex x ++ ">"
-    | _ => "some <inverse>"
+  let mut inv := 0
+  let mut rem := 1 % m
+  for i in [0:bits] do
+    if (rem >>> i) % 2 = 1 then
+      inv := inv + 2 ^ i
+      rem := (rem + m - (x <<< i) % m) % m
+  return inv
 
-def handle (args : List String) (impl : String) : String × String :=
+def invSpec (bits x : Nat) : String :=
+  if bits = 0 ∨ x % 2 = 0 then "none" else "some " ++ toHex (invBits bits x)
+
+def handle (args : List String) (_impl : String) : String × String :=
   match args with
   | ["wide", bs, bs2, as, bs'] =>
     let bits := parseDec bs; let bits2 := parseDec bs2
@@ -51,7 +55,7 @@ def handle (args : List String) (impl : String) : String × String :=
     let m := 2 ^ bits
     match op with
     | "inv" => let a := u bits as; let x := parseHex as
-        (outO (invRing bits a), invSpec bits x impl)
+        (outO (invRing bits a), invSpec bits x)
     | "prod" | "prodref" =>
         let xs := if as = "-" then [] else (as.splitOn ",").map parseHex
         (out (product bits (xs.map (toLimbs (nlimbs bits)))), toHex (xs.foldl (· * ·) 1 % m))
